@@ -19,7 +19,7 @@ CHECKS = {
    note='Dummy PoW; size/cycle limits at the exact boundary are not generated. The catalogue is finite: rules without an operator are not exercised.'),
  'C04': dict(level='exploration', ref='DESIGN.md §2 C04',
    technique='model-based property-based testing: an independent admissibility model (liveness incl. in-block / pooled ancestors, deps and dep groups, header deps, capacity, since and maturity with exact epoch arithmetic, script outcome) decides generated transactions; the real node decides them in probe blocks, in the committed block and through the pool (dry run and submit) on two nodes that reached the same chain by different histories',
-   text='Forked histories bring two real nodes (one reorged onto the main chain, one fed it linearly) to generated positions (epoch heads / tails, window offsets); 20-34 candidate transactions per case are built around every boundary (since number / epoch fraction / median time exact and one short, maturity exact and one block short, occupied and summed capacity exact and one over, dep-group expansion 2048 / 2049, dep group hiding an input, same-block parents and double spends, unknown / side-chain header deps, failing and missing scripts). Each model-rejected candidate goes alone into a probe block that must be refused for that transaction with the tip unmoved, all model-accepted ones into the block both nodes must accept; every live candidate also goes through test_accept_tx (and some through submit_local_tx) at every tip; verdict, cycles and fee must agree between the two nodes.',
+   text='Forked histories bring two real nodes (one reorged onto the main chain, one fed it linearly) to generated positions (epoch heads / tails, window offsets); 20-34 candidate transactions per case are built around every boundary (since number / epoch fraction / median time exact and one short and at the extremes of the 56-bit field, maturity exact and one block short, occupied and summed capacity exact and one over, dep-group expansion 2048 / 2049, dep group hiding an input, same-block parents and double spends, unknown / side-chain header deps, failing and missing scripts). Each model-rejected candidate goes alone into a probe block that must be refused for that transaction with the tip unmoved, all model-accepted ones into the block both nodes must accept; every live candidate also goes through test_accept_tx (and some through submit_local_tx) at every tip; verdict, cycles and fee must agree between the two nodes.',
    note='Script outcomes are always_success / always_failure / missing code cell (C05 covers the VM); the cycle-limit boundary is not generated; pool policy rejections (fee rate, duplicates, RBF rules 2-5) are counted, not judged. Two tx-pool defects are known findings.'),
  'C05': dict(level='exploration', ref='DESIGN.md §2 C05',
    technique='metamorphic property-based testing: one-shot script run vs chunked / resumed / signalled runs over generated RV64 programs and repository test binaries, exhaustive split-point sweeps for small programs',
@@ -52,7 +52,7 @@ CHECKS = {
  'C12': dict(level='exploration', ref='DESIGN.md §2 C12',
    technique='stateful property-based testing on a real node (mine mode and not): generated submissions, extensions and competing branches of every depth up to w_far+2 built by the reference model; after every tip change the pool (dump hook + public API) is judged against the model of the new main chain clause by clause, including completeness of re-admission and stage vs proposal window',
    text='Generated operation lists submit transactions (fee classes around the pool minimum, header deps, shared cell deps, spends of pooled outputs), extend the tip with blocks proposing/committing generated subsets, and deliver competing branches from 1..w_far+2 blocks below the tip that commit other subsets, conflicting transactions or nothing, optionally while a second thread submits. After every tip change, once the pool reports the new tip: no pooled transaction is committed on the new chain, has a dead/unknown input or dep w.r.t. chain + pool, or depends on a detached header; every transaction committed only on the abandoned branch that is still admissible (resolvable, conflict-free, above the minimum fee) is back; in mine mode each entry stage equals the window position of its id.',
-   note='Pool limits other than the fee rate are never binding (defaults); no uncles; concurrent submission interleavings are sampled. Two genuine defects and three consequences of a C11 root cause are known findings.'),
+   note='Pool limits other than the fee rate and (in half of the cases) max_tx_verify_cycles are never binding; no uncles; concurrent submission interleavings are sampled. Two genuine defects and three consequences of a C11 root cause are known findings.'),
  'C13': dict(level='exploration', ref='DESIGN.md §2 C13',
    technique='stateful property-based testing on a mine-mode node: templates are sealed and submitted to the same node (must be accepted) and rebuilt bit-for-bit by the reference model from their free fields',
    text='A generated sequence of pool submissions (chains, diamonds), template requests, mined templates, competing side blocks (uncles, reorgs) and clock advances drives a real node with a block assembler; every template on the current tip is converted the way a miner does and (a) submitted to the node\'s own pipeline, (b) rebuilt by the reference model from its timestamp, uncles, proposals, transactions and cellbase witness: the two blocks must be identical, which pins epoch, target, DAO field, reward amount and lock, chain-root extension and all roots; committed transactions must be committable in the window, parents first, conflict free; half of the spec variants use tight consensus limits (size, cycles, proposals) so that the limits bind.',
@@ -74,9 +74,9 @@ CHECKS = {
    text='Each structure is driven by generated and exhaustively enumerated short operation sequences against a simple mathematical model (set of (hash,parent), per-peer map, HashMap, parent-pointer walk), compared after every operation; locator/ancestor queries also on a real node.',
    note='Exhaustive parts cover sequences up to length 6 over 4 hashes / 2 peers; spills are placed between operations as the statement says (concurrent spills are outside the quantifier).'),
  'C18': dict(level='exploration', ref='DESIGN.md §2 C18',
-   technique='model-based property testing: append/rollback walks with reorgs on the real RocksDB indexer (and the real sync loop on a node) vs a brute-force filter over the reference chain; rollback-inverse metamorphic relation on answers and raw rows',
-   text='Generated chain walks with reorgs over a script universe built to collide (shared code hashes, args that are prefixes of one another, empty and zero args) drive the real indexer; after every append and rollback the indexer tip and a battery of get_cells / get_transactions / get_cells_capacity queries (all filters, both orders, page sizes 1..5 with cursor chaining) are compared with a brute-force filter over the model; append followed by rollback must restore every answer and the query-visible raw rows.',
-   note='Scope is the RocksDB indexer; the rich-indexer (sqlite) is not attached. One genuine defect (prefix search false positive caused by the key layout) is tolerated as a known finding by exactly its predicate.'),
+   technique='model-based property testing: append/rollback walks with reorgs on the real RocksDB indexer and on the real rich-indexer (sqlite), each also behind the real sync loop on a node, vs a brute-force filter over the reference chain; rollback-inverse metamorphic relation on answers and raw rows / table dumps',
+   text='Generated chain walks with reorgs over a script universe built to collide (shared code hashes, args that are prefixes of one another, empty and zero args) drive the real indexer; after every append and rollback the indexer tip and a battery of get_cells / get_transactions / get_cells_capacity queries (all filters, both orders, page sizes 1..5 with cursor chaining) are compared with a brute-force filter over the model; append followed by rollback must restore every answer and the query-visible raw rows. The same walks, queries (plus the partial search mode) and rollback inverse (answers and a dump of every sqlite table) run against the rich-indexer, directly and behind the real sync loop of a node whose chain reorgs.',
+   note='The rich-indexer runs on sqlite only (no Postgres server in the sandbox: its LIKE path is not exercised); tx-pool overlay and rhai filters are not driven. One genuine defect of the RocksDB indexer (prefix search false positive caused by the key layout) is tolerated as a known finding by exactly its predicate; two rich-indexer defects were repaired.'),
  'C19': dict(level='exploration', ref='DESIGN.md §2 C19',
    technique='property-based testing on real nodes with an independent MMR implementation and an independent GCS filter decoder: committed roots, served roots and proofs, filter contents and filter-hash chain compared after every reorg',
    text='Every block is built with the reference model\'s own chain-root (independent MMR), so acceptance is the first oracle and a flipped root must be rejected; after every quiescent point the node\'s chain_root_mmr(k) root and generated membership proofs are compared with the model (also after reorgs to a shorter but heavier chain and regrowth past the old length), proofs must fail against the abandoned branch and with a wrong leaf; with the block-filter service running (started at generated points, reorgs while it lags) every main-chain filter is decoded and must match the lock/type hashes of all outputs and spent inputs, and filter hashes must chain from genesis.',
